@@ -310,6 +310,9 @@ pub fn run_shard(cfg: &ShardCfg, out: &mut ShardOut) {
             None
         };
         let r = run_case(prop, &case, None, out, &cfg.work, sink);
+        if cfg.mode == "dump" && r.violation.is_none() {
+            dump_history(cfg, out, &case, &r.ops);
+        }
         out.evaluations += 1;
         out.calls += r.stats.calls;
         out.counters.inc(&format!("profile.{}", case.profile.name()));
@@ -447,5 +450,48 @@ pub fn replay(rp: &crate::shard::Replay, work: &std::path::Path) -> bool {
             println!("no violation on this tree");
             false
         }
+    }
+}
+
+/// Second-oracle support (DESIGN §3.12): write the call/return log of a history of primitive calls
+/// as one JSON line; `offline/check_log.py` re-judges it with an independent implementation.
+fn dump_history(cfg: &ShardCfg, out: &mut ShardOut, case: &Case, ops: &[Op]) {
+    use crate::rec::{exec_raw, Ret};
+    use std::io::Write;
+    if out.counters.get("dump.histories") >= 400 {
+        return;
+    }
+    if !ops.iter().all(|o| matches!(o, Op::Add(_) | Op::Bind(..) | Op::Put(..) | Op::Data(_) | Op::Kid(..) | Op::Kids(_) | Op::NextId)) {
+        return;
+    }
+    let mut g = crate::shim::new_graph(case.n, case.cap);
+    let mut uniq = 0u64;
+    let mut calls: Vec<J> = vec![];
+    let mut obs: Vec<J> = vec![];
+    for op in ops {
+        let call = match op {
+            Op::Add(v) => J::Arr(vec![J::s("add"), J::i(*v)]),
+            Op::Bind(a, b, l) => J::Arr(vec![J::s("bind"), J::i(*a), J::i(*b), J::s(&crate::ops::label_text(l))]),
+            Op::Put(v, d) => J::Arr(vec![J::s("put"), J::i(*v), J::s(&crate::ops::hex(&d.bytes()))]),
+            Op::Data(v) => J::Arr(vec![J::s("data"), J::i(*v)]),
+            Op::Kid(v, l) => J::Arr(vec![J::s("kid"), J::i(*v), J::s(&crate::ops::label_text(l))]),
+            Op::Kids(v) => J::Arr(vec![J::s("kids"), J::i(*v)]),
+            _ => J::Arr(vec![J::s("next_id")]),
+        };
+        let r = exec_raw(&mut g, op, &cfg.work, &mut uniq, &[]);
+        let ret = match r {
+            Ok(Ret::Data(Some(d))) => J::s(&crate::ops::hex(&d)),
+            Ok(Ret::Id(id)) => J::i(id),
+            Ok(Ret::Kid(Some(t))) => J::i(t),
+            Ok(_) => J::Null,
+            Err(_) => J::s("PANIC"),
+        };
+        calls.push(call);
+        obs.push(J::obj().with("r", ret).with("k", J::Arr(g.keys().into_iter().map(J::i).collect())));
+    }
+    let line = J::obj().with("n", J::i(case.n)).with("cap", J::i(case.cap)).with("calls", J::Arr(calls)).with("obs", J::Arr(obs));
+    if let Ok(mut f) = std::fs::OpenOptions::new().create(true).append(true).open(cfg.work.join(format!("dump-{}.jsonl", cfg.shard))) {
+        let _ = writeln!(f, "{}", line.render());
+        out.counters.inc("dump.histories");
     }
 }
